@@ -1154,6 +1154,25 @@ example : getRecordByName tcfg (run tcfg tState aOps) abcde = some ⟨abcde, "A"
 example : NoHashCollision tcfg (dea :: [Op.modify "G" abcde "C" true, .delete abcde "C"].flatMap Op.targets) ∧
     ∀ op ∈ [Op.modify "G" abcde "C" true, .delete abcde "C"], ∀ t ∈ op.targets,
       (segments t).reverse.flatten ≠ (segments dea).reverse.flatten := by decide
+/-- `root_binds_every_level` / `root_effect`: a root message that succeeds on `tState`, creating the
+level `bc.de` under the existing `de`, with the collision hypothesis satisfied -/
+example : NoHashCollision tcfg ((Op.root "G" (bc ++ dot :: de) "C" true).names ++ storedNames tState) ∧
+    (step tcfg tState (.root "G" (bc ++ dot :: de) "C" true)).toBool = true ∧
+    (Op.root "G" (bc ++ dot :: de) "C" true).targets = [bc ++ dot :: de, de] := by decide
+/-- `normalized_name_has_key`, `no_key_collision_uniform_length` (ℓ = 2), `no_key_collision_single_level` -/
+example : 1 ≤ wcfg.minSeg ∧ IsNormalized wcfg abcde :=
+  ⟨by decide, (key_collision wcfg rfl rfl rfl).1⟩
+example : IsNormalized wcfg (bc ++ dot :: de) ∧ ∀ seg ∈ splitDot (bc ++ dot :: de), seg.length = 2 :=
+  ⟨isNormalized_two wcfg (by unfold Plain; decide) (by unfold Plain; decide) (by decide) (by decide)
+    (by decide), by decide⟩
+example : ({ wcfg with maxLevels := 1 } : Cfg Bytes).maxLevels ≤ 1 ∧
+    IsNormalized ({ wcfg with maxLevels := 1 } : Cfg Bytes) de := by
+  refine ⟨by decide, ?_⟩
+  have e : normalizeName de = de := by decide
+  have v : validateName de = true := by decide
+  have s : splitDot de = [de] := by decide
+  have ln : de.length = 2 := rfl
+  simp [IsNormalized, normalize, e, v, s, ln, wcfg]
 /-- the idealised hypothesis of the earlier statements implies the finite one -/
 example (hH : Function.Injective cfg.H) (names : List Bytes) : NoHashCollision cfg names :=
   noHashCollision_of_injective cfg hH names
